@@ -315,7 +315,7 @@ theorem v2_C01_db_update (ops : FOps) (s : Schema) (db : Db) (id : Nat) (r0 : Ro
     have hp := path_of_written ops s x y r h hw
     have hnt := hfree r.path hp
     refine ⟨db.put id r, ?_, ?_, ?_⟩
-    · simp [Db.update, hw, hnt]
+    · simp [Db.update, hw, hnt, hex]
     · rw [hw] at h1
       simp only [Db.snapshot, Db.get_put_same db id r r0 hex]
       exact h1
@@ -378,8 +378,10 @@ theorem v2_C01_table_create (ops : FOps) (s : Schema) (db : TDb) (hI : Inv db) (
 
 /-- **`track::update`, every case**, whatever was stored for the track before.
 Rejected snapshot: exception, table unchanged.  The track does not exist (its
-handle outlived `remove_track`): the call returns normally and nothing is
-written (`track_table::update` does not look at `rows_modified()`).  The path is
+handle outlived `remove_track`): `track_deleted`, nothing is written (since the
+`fix:` 8862536 `track_impl::update` tests `rows_modified()`; before, the call
+returned normally and the snapshot was dropped silently — C01: "it either
+survives the round trip or the write is rejected with an exception").  The path is
 another track's: refused, table unchanged.  Otherwise the row's `snapshot()` is
 the normalised input, key and origin columns as before, every other row
 untouched. -/
@@ -388,7 +390,7 @@ theorem v2_C01_table_update (ops : FOps) (s : Schema) (db : TDb) (hI : Inv db) (
     | none => ∃ e, callUpdate ops s id x db = (db, .throw e)
     | some y =>
       match db.find id with
-      | none => callUpdate ops s id x db = (db, .ok ())
+      | none => callUpdate ops s id x db = (db, .throw (.dj "track_deleted"))
       | some t => ∃ r p, writeStore ops s x = .ok r ∧ x.relativePath = some p ∧ readSnap ops r = .ok y ∧
           callUpdate ops s id x db =
             if pathTaken' db id p then (db, .throw .sqlite_error) else (db.rep t r, .ok ()) := by
